@@ -668,12 +668,14 @@ func enumerate(prop, tier string, i int) any {
 // Manager.RenewBefore: "how early certificates should be renewed before they
 // expire. If zero, they're renewed at the lesser of 30 days or 1/3 of the
 // certificate lifetime." domainRenewal.next: "If manager.RenewBefore is set,
-// it uses that capped at 30 days". Where the two differ (RenewBefore > 30
-// days) both readings are accepted.
+// it uses that capped at 30 days". The field comment is silent about a cap,
+// the comment of the scheduler states it: the latter is the documented
+// threshold (seed C51-m9 showed that accepting both readings lets a scheduler
+// that contradicts its own comment pass).
 func thresholds(rb, life time.Duration) []time.Duration {
 	if rb > 0 {
 		if rb > 30*day {
-			return []time.Duration{30 * day, rb}
+			return []time.Duration{30 * day}
 		}
 		return []time.Duration{rb}
 	}
